@@ -346,6 +346,30 @@ func buildPKI(thorough bool) *pkiSet {
 			Note: "issuer cycle: A is issued by B and B is issued by A"})
 	}
 
+	// a ring of three CA certificates: A is issued by C, C by B, B by A; the key's certificate is issued by A
+	{
+		ca := func(cn string, serial int64, pub any, alg x509.SignatureAlgorithm, opts ...testsupport.CertificateBuilderOption) *x509.Certificate {
+			all := append([]testsupport.CertificateBuilderOption{
+				testsupport.WithValidity(time.Now().Add(-time.Hour), validity), testsupport.WithSerialNumber(big.NewInt(serial)),
+				testsupport.WithSubject(subj(cn)), testsupport.WithSubjectPubKey(pub, alg), testsupport.WithIsCA(),
+			}, opts...)
+
+			return must(testsupport.NewCertificateBuilder(all...).Build())
+		}
+
+		ringA0 := ca("ring A", 1, &p256a.PublicKey, x509.ECDSAWithSHA256, testsupport.WithSelfSigned(), testsupport.WithSignaturePrivKey(p256a))
+		ringB := ca("ring B", 2, &p256b.PublicKey, x509.ECDSAWithSHA256, testsupport.WithIssuer(p256a, ringA0))
+		ringC := ca("ring C", 3, &p384a.PublicKey, x509.ECDSAWithSHA256, testsupport.WithIssuer(p256b, ringB))
+		ringA := ca("ring A", 4, &p256a.PublicKey, x509.ECDSAWithSHA384, testsupport.WithIssuer(p384a, ringC))
+		ringEE := must(testsupport.NewCertificateBuilder(
+			testsupport.WithValidity(time.Now().Add(-time.Hour), validity), testsupport.WithSerialNumber(big.NewInt(5)),
+			testsupport.WithSubject(subj("ring EE")), testsupport.WithSubjectPubKey(&p256c.PublicKey, x509.ECDSAWithSHA256),
+			testsupport.WithKeyUsage(x509.KeyUsageDigitalSignature), testsupport.WithIssuer(p256a, ringA)).Build())
+
+		add(&Bundle{Name: "ring-of-three-issuers", PEM: cat(sec1(p256c, ""), certPEM(ringEE), certPEM(ringA), certPEM(ringB), certPEM(ringC)),
+			Isolate: true, Note: "issuer cycle of length three: A is issued by C, C by B, B by A"})
+	}
+
 	// ---- trust store shapes (certificates; key material is 'unsupported' there)
 	ps.trust = []*Bundle{
 		{Name: "trust-one-certificate", PEM: certPEM(rootCert), Supported: true},
